@@ -3,6 +3,11 @@
 // API-visible events to a shared-memory log. Judges nothing.
 #include "dvm_common.h"
 #include <Block.h>
+#if defined(__has_feature)
+#if __has_feature(address_sanitizer)
+#include <sanitizer/asan_interface.h>
+#endif
+#endif
 
 extern void dispatch_async_and_wait_f(dispatch_queue_t, void *, dispatch_function_t);
 extern void dispatch_barrier_async_and_wait_f(dispatch_queue_t, void *, dispatch_function_t);
@@ -28,13 +33,13 @@ enum {
 	K_ASYNC, K_BASYNC, K_SYNC, K_BSYNC, K_AAW, K_BAAW, K_GASYNC, K_APPLY, K_AWAIT, K_WORK, K_GATE, K_OPEN,
 	K_SUSPEND, K_RESUME, K_ACTIVATE, K_GENTER, K_GLEAVE, K_GWAIT, K_GNOTIFY, K_SWAIT, K_SSIGNAL, K_ONCE,
 	K_SPECIFIC, K_QSPECIFIC, K_ASSERTQ, K_ASSERTNOTQ, K_XASSERTQ, K_XASSERTNOTQ, K_RETAIN, K_RELEASE, K_SETTARGET,
-	K_BCREATE, K_BSUBMIT, K_BCANCEL, K_BWAIT, K_BNOTIFY, K_BTEST, K_YIELD, K_SLEEP, K_AFTER, K_ONCESTORM, K_BPERFORM, K_NKINDS
+	K_BCREATE, K_BSUBMIT, K_BCANCEL, K_BWAIT, K_BNOTIFY, K_BTEST, K_YIELD, K_SLEEP, K_AFTER, K_ONCESTORM, K_BPERFORM, K_SETCTX, K_NKINDS
 };
 static const char *kind_names[K_NKINDS] = {
 	"async", "basync", "sync", "bsync", "aaw", "baaw", "gasync", "apply", "await", "work", "gate", "open",
 	"suspend", "resume", "activate", "genter", "gleave", "gwait", "gnotify", "swait", "ssignal", "once",
 	"specific", "qspecific", "assertq", "assertnotq", "xassertq", "xassertnotq", "retain", "release", "settarget",
-	"bcreate", "bsubmit", "bcancel", "bwait", "bnotify", "btest", "yield", "sleep", "after", "oncestorm", "bperform"
+	"bcreate", "bsubmit", "bcancel", "bwait", "bnotify", "btest", "yield", "sleep", "after", "oncestorm", "bperform", "setctx"
 };
 
 struct ctx;
@@ -146,8 +151,8 @@ static void *storm_thread(void *c) {
 	return NULL;
 }
 static void finalizer_f(void *c) {
-	long q = (long)c - 1;
-	logev(EV_FINAL, -1, (int32_t)q, (int64_t)(long)dispatch_get_specific(&KEYS[NKEYS]));
+	long q = ((long)c % 1000) - 1, ver = (long)c / 1000;
+	logev(EV_FINAL, (int32_t)ver, (int32_t)q, (int64_t)(long)dispatch_get_specific(&KEYS[NKEYS]));
 	atomic_fetch_add(&finalizers_seen, 1); fwake_all(&finalizers_seen);
 }
 static void keydtor_f(void *c) { logev(EV_DESTRUCT, -1, (int32_t)((long)c >> 16), (int64_t)((long)c & 0xffff)); }
@@ -235,6 +240,9 @@ static void exec_op(op_t *op) {
 		}
 		break; }
 	case K_RESUME: case K_ACTIVATE: case K_GLEAVE: {
+		if (op->kind == K_ACTIVATE && op->b < 0) {      // owner-side activation without a token (the janitor must not activate this queue early)
+			logev(EV_CALL, op->id, -1, op->kind); dispatch_activate(Q[op->a]); logev(EV_RET, op->id, -1, 0); break;
+		}
 		long n = (op->kind == K_RESUME && op->c > 0) ? op->c : 1;
 		for (long i = 0; i < n; i++) {
 			int t = (int)(op->b + i);
@@ -345,6 +353,7 @@ static void exec_op(op_t *op) {
 		}
 		logev(EV_RET, op->id, (int32_t)op->b, 0);
 		break; }
+	case K_SETCTX: logev(EV_CALL, op->id, -1, op->b); dispatch_set_context(Q[op->a], (void *)(long)(op->a + 1 + 1000 * op->b)); logev(EV_RET, op->id, -1, 0); break;
 	case K_BPERFORM:
 		logev(EV_CALL, op->id, -1, op->kind);
 		dispatch_block_perform((dispatch_block_flags_t)op->b, ^{ item_run(op, -2); });
@@ -575,6 +584,17 @@ static void *coordinator(void *arg) {
 		while ((r = atomic_fetch_sub(&QD[q].apprefs, 1)) > 0) { logev(EV_CALL, -2, q, r); dispatch_release(Q[q]); logev(EV_RET, -2, q, 0); }
 	}
 	if (opt_finalizers) { int s; while ((s = atomic_load(&finalizers_seen)) < atomic_load(&finalizers_expected)) fwait(&finalizers_seen, s); }
+#if defined(__has_feature)
+#if __has_feature(address_sanitizer)
+	if (opt_finalizers) {
+		// the finalizer runs right before the memory is released: give the last internal release a moment, then ask ASan whether it is gone
+		dispatch_sync(dispatch_get_global_queue(0, 0), ^{});
+		struct timespec ts = { 0, 2000000 }; nanosleep(&ts, 0);
+		for (int q = 0; q < MAXQ; q++) if (QD[q].used && QD[q].kind != 2 && QD[q].kind != 3)
+			logev(EV_VAL, -1, 2000 + q, __asan_address_is_poisoned((void *)Q[q]));
+	}
+#endif
+#endif
 	logev(EV_FINISH, -1, -1, 0);
 	atomic_store(&S->finished, 1);
 	fflush(NULL);
